@@ -114,6 +114,14 @@ fn case_line(f: &ImgFacts) -> String {
     format!("open p={} rr={} tpc={} s0={} s1={}", f.primary, u8::from(f.rr), u8::from(f.tpc), sl(&f.slots[0]), sl(&f.slots[1]))
 }
 
+/// histories below this index hand up to two opened images each to the independent decoder
+fn fmt_histories() -> u64 {
+    if tier_is_thorough() { 30 } else { 3 }
+}
+
+/// index of the directed scenario (runs in every batch, after the random histories)
+const DIRECTED: u64 = 1_000_000;
+
 #[derive(Clone, Copy, PartialEq, Eq, Debug)]
 enum Kind {
     OnePc,
@@ -132,6 +140,8 @@ struct H {
     spec_latest: Contents,
     spec_durable: Contents,
     healthy: bool,
+    pre_open_image: Option<Vec<u8>>,
+    fmt_samples: u32,
     pending_nd: bool,
     len_at_durable: usize,
     cases: String,
@@ -164,6 +174,8 @@ impl H {
             spec_latest: Contents::default(),
             spec_durable: Contents::default(),
             healthy: true,
+            pre_open_image: None,
+            fmt_samples: 0,
             pending_nd: false,
             len_at_durable: 0,
             cases: String::new(),
@@ -350,9 +362,22 @@ impl H {
         self.absorb();
         match r {
             Ok(Ok(false)) if expect_clean && unpublished_growth => {
+                // the known finding applies only if, in addition, a second call is clean and nothing was lost
+                let (len_now, len_then) = (self.file_len(), self.len_at_durable);
+                let db = self.db.as_mut().unwrap();
+                let second = catch(|| db.check_integrity());
+                self.absorb();
+                if !matches!(second, Ok(Ok(true))) {
+                    self.fail(format!("{what}: check_integrity() returned Ok(false) and the second call did not return Ok(true): {:?}", second.map(|r| r.map_err(|e| e.to_string()))));
+                    return false;
+                }
+                let latest = self.spec_latest.clone();
+                if self.check_contents(&format!("{what}, after the spurious Ok(false)"), &[&latest]).is_none() {
+                    return false;
+                }
                 self.viol.push(format!(
-                    "KNOWN-CANDIDATE integrity-false-after-unpublished-growth: {what}: check_integrity() returned Ok(false) on a healthy database whose file was grown by an aborted transaction (file length {} vs {} at the last durable commit) || trace: {}",
-                    self.file_len(), self.len_at_durable, self.trace.join(" ; ")
+                    "KNOWN-CANDIDATE integrity-false-after-unpublished-growth: {what}: check_integrity() returned Ok(false) on a healthy database whose file was grown by an aborted transaction (file length {len_now} vs {len_then} at the last durable commit; second call Ok(true), contents intact) || trace: {}",
+                    self.trace.join(" ; ")
                 ));
                 self.mark("integrity_false_after_unpublished_growth");
                 self.spec_durable = self.spec_latest.clone();
@@ -410,6 +435,7 @@ impl H {
             return;
         };
         self.backend = RecBackend::with_data(img.clone());
+        self.pre_open_image = Some(img.clone());
         self.log = CrashLog::from_image(img);
         let (db, fired) = match open_db(self.backend.handle(), self.cfg) {
             Ok(x) => x,
@@ -432,6 +458,21 @@ impl H {
         let Some(info) = self.own(&what) else { return };
         writeln!(self.cases, "{}", case_line(&facts)).unwrap();
         writeln!(self.outs, "ok path={path} after={}", info.durable_txid).unwrap();
+        // a sample of the images goes to the independent decoder (coq/Format, `fmt_driver`): props/c11.py
+        // compares ITS required set (reachable + freed lists decoded from these bytes) with the allocator state
+        if self.idx < fmt_histories() && self.fmt_samples < 2 && self.r.chance(1, 4) {
+            let served = if fired > 0 { info.durable_txid - 1 } else { info.durable_txid };
+            let base = format!("fmtimg-{}-{}", self.idx, self.opens);
+            if let Some(bytes) = self.pre_open_image.take() {
+                std::fs::write(format!("{base}.bin"), bytes).unwrap();
+                let mut t = format!("served_txid={served} path={path} stop={stop}\n");
+                for (r, i) in &info.allocated_list {
+                    t.push_str(&format!("{r}.{i}\n"));
+                }
+                std::fs::write(format!("{base}.alloc"), t).unwrap();
+                self.fmt_samples += 1;
+            }
+        }
         // S3: the snapshot rule, directly on the bytes
         if fired == 0 {
             let p = &facts.slots[facts.primary as usize];
@@ -550,6 +591,70 @@ impl H {
         self.open_image(img, &format!("crash-midcommit:cut{cut}/{}:{label}", ops.len()), vec![before, after]);
     }
 
+    /// Directed scenario for the known finding `c11-integrity-false-after-unpublished-growth`, so that
+    /// its KNOWN-FINDING line does not depend on the seed: commit a little, grow the file inside a
+    /// transaction, abort it, call check_integrity() on the (healthy) database.
+    fn run_directed_unpublished_growth(&mut self) {
+        self.cfg = Cfg { page_size: 4096, region_size: None, cache: 1024 * 1024 };
+        match open_db(self.backend.handle(), self.cfg) {
+            Ok((db, _)) => self.db = Some(db),
+            Err(e) => {
+                self.fail(format!("create failed: {e}"));
+                return;
+            }
+        }
+        self.absorb();
+        self.durable_point();
+        let small = Load { keys: 20, ops: 10, max_val: 50, big_val_permille: 0, delete_bias: 0 };
+        let mut spec = self.spec_latest.clone();
+        let r = {
+            let db = self.db.as_ref().unwrap();
+            catch(|| {
+                let t = db.begin_write().map_err(|e| e.to_string())?;
+                mutate(&t, &mut spec, &mut self.r, &small)?;
+                t.commit().map_err(|e| e.to_string())
+            })
+        };
+        if !matches!(r, Ok(Ok(()))) {
+            self.fail(format!("directed scenario: first commit failed: {r:?}"));
+            return;
+        }
+        self.spec_latest = spec;
+        self.spec_durable = self.spec_latest.clone();
+        self.durable_point();
+        self.trace.push("directed: txn(durable,commit)".into());
+        let before = self.file_len();
+        let r = {
+            let db = self.db.as_ref().unwrap();
+            catch(|| {
+                let t = db.begin_write().map_err(|e| e.to_string())?;
+                {
+                    let mut tab = t.open_table(TA).map_err(|e| e.to_string())?;
+                    let v = vec![7u8; 1000];
+                    for k in 0..3000u64 {
+                        tab.insert(&(1_000_000 + k), v.as_slice()).map_err(|e| e.to_string())?;
+                    }
+                }
+                t.abort().map_err(|e| e.to_string())
+            })
+        };
+        if !matches!(r, Ok(Ok(()))) {
+            self.fail(format!("directed scenario: the growing transaction failed: {r:?}"));
+            return;
+        }
+        self.trace.push(format!("directed: txn(durable, 3000 x 1000 bytes, abort) file {before} -> {}", self.file_len()));
+        if self.file_len() <= before {
+            self.fail("directed scenario: the aborted transaction did not grow the file".into());
+            return;
+        }
+        self.integrity("directed scenario (aborted growth, then check_integrity)", true);
+        if !self.dead {
+            let latest = self.spec_latest.clone();
+            self.check_contents("directed scenario, at the end", &[&latest]);
+        }
+        self.discard_process();
+    }
+
     fn run(&mut self, len: u64) {
         match open_db(self.backend.handle(), self.cfg) {
             Ok((db, _)) => self.db = Some(db),
@@ -630,11 +735,18 @@ fn main() {
     let only: Option<u64> = a.get(9).and_then(|s| s.parse().ok());
     let seed = seed_from_env();
     let thorough = tier_is_thorough();
-    let todo: Vec<u64> = (0..n).filter(|i| only.map(|o| o == *i).unwrap_or(true)).collect();
+    let mut todo: Vec<u64> = (0..n).filter(|i| only.map(|o| o == *i).unwrap_or(true)).collect();
+    if only.is_none() || only == Some(DIRECTED) {
+        todo.push(DIRECTED);
+    }
     let work = |i: u64| -> Block {
         let mut h = H::new(i, seed, offs);
         let len = if thorough { 20 + h.r.below(40) } else { 12 + h.r.below(24) };
-        h.run(len);
+        if i == DIRECTED {
+            h.run_directed_unpublished_growth();
+        } else {
+            h.run(len);
+        }
         let mut b = Block::default();
         b.texts.insert("cases".into(), h.cases.clone());
         b.texts.insert("outs".into(), h.outs.clone());
